@@ -345,31 +345,25 @@ def evaluate(ctx, batch, real_cmd, model_cmd, env, problems, reasons):
             if expected is not None and r != expected:
                 why = f"aggregate {text!r} of {kind} grammar tokens: expected {expected!r}, implementation answers {r!r}"
                 if intspelled and r == expected.replace("sev=NULL", "sev=WARNING"):
-                    vkey = AGG_PENDING_KEY
+                    vkey = AGG_NUMBER_KEY
                     why = (f"LIST OF NUMBER {text!r}: an element spelled as an integer is read to its value but reported "
                            f"WARNING (RealNode reads NUMBER elements with ReadReal, which demands a decimal point): {r!r}")
             elif mutated and parse_r(r).get("sev") in ("NULL", "USERMSG"):
                 why = f"malformed aggregate {text!r} of {kind} read without any error: {r!r}"
-                if mutated == "missing":
+                if mutated == "missing" and kind in AGG_MISSING_KINDS and "unset" in parse_r(r).get("val", ""):
                     vkey = AGG_MISSING_KEY
                     why = (f"aggregate {text!r} of {kind} with an element missing: the element is stored as unset and nothing is "
                            f"reported: {r!r}")
             if why:
                 from vlib import findings as KF
                 if KF.lookup(ctx.pid, vkey):
+                    # a listed finding: announce it (once per key), do not let it mask other inputs; the model must still agree
                     if ("known", vkey) not in reasons:
                         reasons[("known", vkey)] = True
                         problems.append(("property", vkey, why, {"request": line}))
                     nprob += 1
-                    continue
-                if vkey in AGG_PENDING:
-                    if ("pending", vkey) not in reasons:
-                        reasons[("pending", vkey)] = True
-                        print(f"PENDING-FINDING: property=C09 key={vkey} request=`{line}` what={why}")
-                        ctx.cov.setdefault("pending_findings", []).append({"key": vkey, "request": line, "what": why})
                     if r != parts[0]:
                         problems.append(("correspondence", line, f"impl {r!r} vs model {parts[0]!r}", None))
-                        nprob += 1
                     continue
                 rs = ("ag-" + kind, reason_of(why))
                 if rs not in reasons:
@@ -584,11 +578,11 @@ AGG_POOL = {
     "REF": [("#1", "#1"), ("#5", "#5"), ("#12", "#12"), ("#123", "#123"), ("#2147483647", "#2147483647")],
 }
 AGG_LAYOUT = ["", " ", "/*c*/", " /* , ) */ ", "\n", "/**//***/"]
-AGG_PENDING_KEY = "agg:number-element-spelled-as-integer"
-AGG_MISSING_KEY = "agg:missing-element-read-as-unset"
-# found in the deepening round, reported in notes/C09.md with the proposed `finding:` lines; announced on every run and not
-# counted as violations until the integrator has listed (or repaired) them — the element loop belongs to property C01
-AGG_PENDING = (AGG_PENDING_KEY, AGG_MISSING_KEY)
+# the two input classes of the aggregate findings (KNOWN_FINDINGS.txt; the element loop belongs to property C01): the key is
+# decided from the input and the answer's shape only — anything else that goes wrong on an aggregate keeps its own key
+AGG_NUMBER_KEY = "agg:number-element-spelled-as-integer"    # all-grammar LIST OF NUMBER with an integer-spelled element: right values, WARNING
+AGG_MISSING_KEY = "agg:missing-element-read-as-unset"       # an element position left empty, kinds below: unset element, no error
+AGG_MISSING_KINDS = ("STRING", "BOOLEAN", "LOGICAL", "ENUM", "REF")
 
 
 def agg_expected(kind, tok, val):
